@@ -3,7 +3,9 @@ package props
 import (
 	"fmt"
 	"regexp"
+	"regexp/syntax"
 	"strings"
+	"time"
 
 	"github.com/alecthomas/participle/v2/lexer"
 
@@ -115,7 +117,134 @@ func c07Witnesses() []struct {
 	}
 }
 
+// c07GenMapFor is the rule map behind the i-th generated lexer of a C07 batch:
+// the first ones of batch 0 are fixed definitions whose repetitions have bodies
+// that can complete an iteration without consuming (the one shape in which an
+// emitted "repeat until the body fails" loop has no exit), the rest come from
+// the supported-class generator.
+func c07GenMapFor(seed int64, batch, i int) *lexgen.GMap {
+	if batch == 0 && i >= 1 && i <= 3 {
+		root := [][]lexgen.GRule{
+			{{Name: "String", Pattern: `"(?:\\.|[^"\\]*)*"`}, {Name: "Ident", Pattern: `[a-z]+`}, {Name: "Punct", Pattern: `[=;]`}, {Name: "ws", Pattern: `\s+`}},
+			{{Name: "List", Pattern: `\[(\w*,?)*\]`}, {Name: "Ident", Pattern: `[a-z]+`}, {Name: "ws", Pattern: `\s+`}},
+			{{Name: "Open", Pattern: `\(`, Action: "push", Target: "In"}, {Name: "Word", Pattern: `(?:[a-z]*-?)+x`}, {Name: "ws", Pattern: `\s+`}},
+		}[i-1]
+		g := &lexgen.GMap{States: []string{"Root"}, Rules: map[string][]lexgen.GRule{"Root": root}}
+		if i == 3 {
+			g.States = append(g.States, "In")
+			g.Rules["In"] = []lexgen.GRule{{Name: "Close", Pattern: `\)`, Action: "pop"}, {Name: "Body", Pattern: `(?:[^()]*)+`}}
+		}
+		return g
+	}
+	return lexMapFor("C07", seed, batch, i)
+}
+
+// c07Generated drives the Go lexers `participle gen lexer` emits for rule maps
+// of the generator's supported class (compiled into this child by the prepare
+// step) with the same monitors as the runtime lexer. Whether a Next call
+// returns at all is decided as in C05: the PEG model of the emitted matchers
+// predicts a repetition whose body completes an iteration without consuming,
+// and the generated lexer, run on the side, does not come back.
+func c07Generated(c *mon.Child) {
+	hangs := 0
+	for _, idx := range lexgen.GeneratedOrder {
+		gen := lexgen.Generated[idx]
+		g := c07GenMapFor(c.Seed, c.Batch, idx)
+		def, err, _, _ := buildDef(g)
+		if err != nil || def == nil {
+			continue
+		}
+		rules := map[string]*c05Rule{}
+		okRules := true
+		for _, rs := range g.Rules {
+			for _, ru := range rs {
+				if ru.Pattern == "" || rules[ru.Name] != nil {
+					continue
+				}
+				tree, err := syntax.Parse(ru.Pattern, syntax.Perl)
+				re, err2 := regexp.Compile(`\A(?:` + ru.Pattern + `)`)
+				if err != nil || err2 != nil {
+					okRules = false
+					continue
+				}
+				rules[ru.Name] = &c05Rule{re: re, tree: tree.Simplify(), ops: map[string]bool{}}
+			}
+		}
+		if !okRules {
+			continue
+		}
+		c.Feature("generated_lexers_driven")
+		names := symNames(def)
+		r := c.RNG("geninputs", idx)
+		inputs := lexInputs(r, g, c.N(40, 120))
+		if c.Batch == 0 && idx >= 1 && idx <= 3 {
+			inputs = append([]string{`x = "hello";`, `a = "b\"c" ; "" ;`, `[a,b,,c] x [] [,]`, `[ab`, `ab-cd-x (a(b)c) -x`, `(()`, `"abc`}, inputs...)
+		}
+		for ii, in := range inputs {
+			key := fmt.Sprintf("g%d.i%d", idx, ii)
+			if !c.Want(key) {
+				continue
+			}
+			c.Begin(key, fmt.Sprintf("generated lexer %s <- %q", trunc(g.String(), 300), trunc(in, 200)))
+			c.Eval(1)
+			desc := func() string {
+				return "generated lexer, rules: " + trunc(g.String(), 600) + fmt.Sprintf(" | input: %q", trunc(in, 200))
+			}
+			detail := func() interface{} { return map[string]interface{}{"rules": g, "input": in, "generated": true} }
+			if v := c05Model(g, rules, in); v.HangAt >= 0 {
+				c.Feature("generated_inputs_with_empty_iteration_in_a_repetition")
+				if hangs >= 2 {
+					c.End(key)
+					continue
+				}
+				done := make(chan struct{})
+				go func() {
+					defer close(done)
+					defer func() { recover() }()
+					if lx, err := gen.(lexer.StringDefinition).LexString("", in); err == nil {
+						lexAll(lx, names, len(in)+2)
+					}
+				}()
+				select {
+				case <-done:
+				case <-time.After(5 * time.Second):
+					hangs++
+					c.Violation("generated-matcher-loops-on-empty-iteration", key, fmt.Sprintf("Next of the generated lexer does not return: the matcher for rule %s at offset %d repeats a body that completes an iteration without consuming (predicted by the model of the emitted code, and the call did not come back) | %s", v.HangRule, v.HangAt, desc()), detail())
+					c.End(key)
+					continue
+				}
+			}
+			var lx lexer.Lexer
+			var lerr error
+			switch ii % 3 {
+			case 0:
+				lx, lerr = gen.(lexer.StringDefinition).LexString("g", in)
+			case 1:
+				lx, lerr = gen.(lexer.BytesDefinition).LexBytes("g", []byte(in))
+			default:
+				lx, lerr = gen.Lex("g", strings.NewReader(in))
+			}
+			if lerr != nil {
+				c.Violation("", key, "generated definition's Lex* returned an error: "+lerr.Error()+" | "+desc(), detail())
+				c.End(key)
+				continue
+			}
+			real := c07Drive(c, key, lx, names, in, desc, detail)
+			c.Feature("generated_lexer_inputs_driven")
+			if real.Err != nil {
+				c.Feature("generated_lexer_inputs_ending_in_error")
+			}
+			ref := lexgen.RefLex(g, in)
+			if ref.MaxDepth >= 2 && (real.Err != nil || ref.Undefined) {
+				c.Nontrivial("generated" + g.String() + "\x00" + in)
+			}
+			c.End(key)
+		}
+	}
+}
+
 func c07Child(c *mon.Child) {
+	c07Generated(c)
 	if c.Batch == 0 {
 		for wi, w := range c07Witnesses() {
 			def, err, panicked, _ := buildDef(w.g)
@@ -217,6 +346,7 @@ func init() {
 		Batches:    func(t string) int { return pick(t, 4, 16) },
 		Floor:      func(t string) int { return pick(t, 200, 4000) },
 		TimeoutSec: func(t string) int { return pick(t, 120, 3000) },
+		Prepare:    lexProgPrepare("C07", func(t string) int { return pick(t, 30, 100) }),
 		Child:      c07Child,
 	})
 }
